@@ -33,6 +33,10 @@ THEOREMS = [
     "PorepyVerif.C27.trace_other_cases",
     "PorepyVerif.C27.error_paths",
     "PorepyVerif.C27.sign_block_offsets",
+    "PorepyVerif.C27.boundary_tags_satisfy_hypothesis",
+    "PorepyVerif.C27.boundary_projection_from_tags",
+    "PorepyVerif.C27.entry_point_checks",
+    "PorepyVerif.C27.driver_hypotheses_sound",
 ]
 LEAN_MODULES = ["PorepyVerif.C27.Props"]
 AUDIT = "PorepyVerif/C27/Audit.lean"
@@ -45,7 +49,11 @@ RULE = ("md-grids: 2-d Cartesian grids (1-4 x 1-4 cells) with 0-3 axis-aligned f
         "vector dimension 1-3, a random ordered sub-list of the subdomains as the projection object's list (full list, permutation, "
         "subset, empty; sometimes with a duplicate), 2-4 ordered sub-lists for restriction/prolongation (permutation of all, subset, "
         "empty, sometimes a repeated or unknown grid), a random ordered sub-list of interfaces (sometimes mixed codimension), the 8 "
-        "mortar projections called in random order on ONE object (cache paths). non-trivial = >=2 listed subdomains in non-sorted order "
+        "mortar projections called in random order on ONE object (cache paths). Explicit strata (counted in stats): reversed full list, "
+        "empty subdomain list, single listed grid, duplicated interface, tuple instead of list argument, repeated calls (cache), no "
+        "interfaces, one-cell grids, large 1-d grids / large stub counts, zero-count stubs. The Lean driver also evaluates the decidable "
+        "hypotheses of the theorems (well-formed sizes, boundary mask length, distinct in-range boundary faces, local mortar entries "
+        "fit their neighbour, one codimension, side counts add up) on every case and the result is compared. non-trivial = >=2 listed subdomains in non-sorted order "
         "or dim>1 or >=2 interfaces; distinct = distinct (grid spec, dim, lists)")
 TRUSTED = [
     "modelled, not verified: scipy.sparse (coo/csc construction, bmat, kron, matrix products) — the model works on index maps and "
@@ -64,6 +72,10 @@ EXPLANATION = ("FULL: model = expand_indices_nd, the offset loops of _cell_proje
                "placed at (face offset, cell offset) of the listed subdomains in list order; sign_of_mortar_sides = per-interface +-1 "
                "runs at the interface offsets (self-inverse); error_paths: IndexError iff a grid has no cells (cell version) / a grid of "
                "positive dimension has no faces (face version), KeyError iff a requested grid is not listed, nothing else raises. "
+               "Hypotheses: boundary faces come from np.where on the tag mask (modelled, proved increasing/in range, so that hypothesis is "
+               "discharged); the remaining input conditions (well-formed sizes, local mortar entries fit, one codimension, side counts) are "
+               "evaluated by the driver on every case (driver_hypotheses_sound) and compared. Entry points: constructor uniqueness check and "
+               "the list-argument check are modelled and characterised (entry_point_checks). "
                "Correspondence compares every matrix exactly (shape + triplets).")
 ASSUMPTIONS = [
     "well-formed grid data (decidable, hypothesis of the theorems): every grid has >=1 cell; a 0-d grid has no faces, a grid of positive "
@@ -210,6 +222,14 @@ def _frac3d(rng, n, used):
 
 def _gen_spec(rng, tier):
     r = rng.random()
+    if r < 0.04:  # size-1 stratum: one-cell grids
+        d = rng.choice([1, 2, 3])
+        return {"kind": "single", "n": [1] * d}
+    if r < 0.07:  # large-scale stratum: long 1-d grid / big stub counts
+        if rng.random() < 0.5:
+            return {"kind": "single", "n": [rng.randint(40, 90)]}
+        return {"kind": "stub", "grids": [[rng.randint(60, 150), rng.randint(60, 200), rng.choice([1, 2, 3])] for _ in range(rng.randint(1, 3))]}
+    r = rng.random()
     if r < 0.12:
         k = rng.randint(0, 6)
         grids = []
@@ -324,7 +344,29 @@ def gen_case(rng, tier):
         intfs = [pool[i] for i in _sublist(rng, len(pool))]
     order = list(MORTAR)
     rng.shuffle(order)
-    return {"grid": spec, "dim": dim, "all": all_, "sels": sels, "intfs": intfs, "mortar_order": order}
+    sub_order = list(SUBS)
+    rng.shuffle(sub_order)
+    case = {"grid": spec, "dim": dim, "all": all_, "sels": sels, "intfs": intfs, "mortar_order": order, "sub_order": sub_order}
+    # explicit corner-case strata (counted in stats)
+    r = rng.random()
+    if r < 0.06 and ns:
+        case.update(stratum="reversed_full_list", all=list(range(ns))[::-1], sels=[list(range(ns)), list(range(ns))[::-1], [ns - 1]])
+    elif r < 0.10:
+        case.update(stratum="empty_subdomain_list", all=[], sels=[[], []])
+    elif r < 0.15 and ns:
+        one = rng.randrange(ns)
+        case.update(stratum="single_listed_grid", all=[one], sels=[[one], []])
+    elif r < 0.20 and intfs:
+        case.update(stratum="duplicate_interface", intfs=intfs + [rng.choice(intfs)])
+    elif r < 0.26 and not _has_dup(all_):
+        case.update(stratum="tuple_argument", tuple=[rng.randrange(len(sels))])
+    elif r < 0.33:
+        names = list(MORTAR)
+        rng.shuffle(names)
+        case.update(stratum="repeated_calls", repeat=True, mortar_repeat=names[: rng.randint(2, 8)])
+    elif r < 0.36:
+        case.update(stratum="no_interfaces", intfs=[])
+    return case
 
 
 # ----------------------------------------------------------------------------- canonical forms
@@ -379,19 +421,29 @@ def impl_run(case):
         out.append("ok")
     except Exception as e:
         return [err_kind(e)]
-    for s in case["sels"]:
-        for kind in SUBS:
+    bad = any(g.num_cells == 0 or (g.dim > 0 and g.num_faces == 0) for g in subs)
+    for k, s in enumerate(case["sels"]):
+        arg = _sel(w, case, s)
+        if k in case.get("tuple", []):
+            arg = tuple(arg)  # the wrappers insist on a list
+        res = {}
+        for kind in case.get("sub_order", SUBS):  # which method builds the cached per-grid projections varies
             try:
-                out.append(_canon(getattr(proj, kind)(_sel(w, case, s))))
+                r = getattr(proj, kind)(arg)
+                if case.get("repeat"):  # second call goes through the cached per-grid projections
+                    r = getattr(proj, kind)(arg)
+                res[kind] = _canon(r)
             except Exception as e:
-                out.append(err_kind(e))
+                res[kind] = err_kind(e)
+        out += [res[kind] for kind in SUBS]
     if w.stub:
+        out.append({"grids": not bad, "dim": True, "mortar": [], "sign": True})
         return out
     mdg = w.mdg
     intfs = [w.intfs[k] for k in case["intfs"]]
     mp = pp.ad.MortarProjections(mdg, subs, intfs, dim)
     res = {}
-    for name in case["mortar_order"]:
+    for name in list(case["mortar_order"]) + list(case.get("mortar_repeat", [])):  # repeats hit the cache
         try:
             res[name] = _canon(getattr(mp, name)())
         except Exception as e:
@@ -414,16 +466,18 @@ def impl_run(case):
         out.append(_canon(pp.ad.Divergence(subs, dim).parse(mdg)) if subs else {"shape": [0, 0], "trip": []})
     except Exception as e:
         out.append(err_kind(e))
+    # the decidable hypotheses of the theorems, as they must come out for data read from real grids
+    mixed = len({int(i.codim) for i in intfs}) > 1
+    out.append({"grids": True, "dim": True, "mortar": [not mixed] * len(MORTAR), "sign": True})
     return out
 
 
 # ----------------------------------------------------------------------------- model ops
 def _grid_json(w, g):
     if w.stub:
-        return {"cells": g.num_cells, "faces": g.num_faces, "gdim": g.dim, "bfaces": []}
-    np = _pp()["np"]
+        return {"cells": g.num_cells, "faces": g.num_faces, "gdim": g.dim, "btags": []}
     return {"cells": int(g.num_cells), "faces": int(g.num_faces), "gdim": int(g.dim),
-            "bfaces": [int(i) for i in np.where(g.tags["domain_boundary_faces"])[0]]}
+            "btags": [int(b) for b in g.tags["domain_boundary_faces"]]}
 
 
 def _intf_json(w, case, k, name):
@@ -447,17 +501,18 @@ def model_ops(case):
     ops = [{"op": "init", "dim": case["dim"], "unique": True, "ids": case["all"], "grids": [_grid_json(w, g) for g in subs]}]
     if _has_dup(case["all"]):
         return ops
-    for s in case["sels"]:
+    for k, s in enumerate(case["sels"]):
         for kind in SUBS:
-            ops.append({"op": "sub", "kind": kind, "sel": s})
+            ops.append({"op": "sub", "kind": kind, "sel": s, "as_tuple": k in case.get("tuple", [])})
     if w.stub:
-        return ops
+        return ops + [{"op": "hyps"}]
     for name, (to_m, is_p) in MORTAR.items():
         ops.append({"op": "mortar", "to_mortar": to_m, "is_primary": is_p, "intfs": [_intf_json(w, case, k, name) for k in case["intfs"]]})
     ops.append({"op": "sign", "intfs": [_intf_json(w, case, k, None) for k in case["intfs"]]})
     ops.append({"op": "boundary"})
     ops.append({"op": "trace", "locals": [_trips(g.trace(dim=1)) if g.dim > 0 else [] for g in subs]})
     ops.append({"op": "divergence", "locals": [_trips(g.divergence(dim=1)) for g in subs]})
+    ops.append({"op": "hyps"})
     return ops
 
 
@@ -536,6 +591,13 @@ def _oracle(case):
             return None
         return {"what": "SubdomainProjections raised ValueError on distinct subdomains", "key": "sub-ctor-raises"}
     proj1 = pp.ad.SubdomainProjections(subs, 1)
+    for k in case.get("tuple", []):
+        for kind in SUBS:
+            try:
+                getattr(proj, kind)(tuple(_sel(w, case, case["sels"][k])))
+                return {"what": f"{kind} accepted a tuple instead of a list", "key": "sub-non-list-accepted"}
+            except ValueError:
+                pass
     for which, attr, bad in (("cell", "num_cells", bad_cells), ("face", "num_faces", any(g.dim > 0 and g.num_faces == 0 for g in subs))):
         sizes = [getattr(g, attr) for g in subs]
         row_off, total = _offsets(sizes, dim)
@@ -543,8 +605,11 @@ def _oracle(case):
             known = all(i in case["all"] for i in s)
             grids = _sel(w, case, s)
             try:
+                # each method is the first call on some object (each of them can be the one that builds the cache)
                 R = getattr(proj, which + "_restriction")(grids)._mat
-                Pm = getattr(proj, which + "_prolongation")(grids)._mat
+                Pm = getattr(pp.ad.SubdomainProjections(subs, dim), which + "_prolongation")(grids)._mat
+                if not _same(getattr(proj, which + "_prolongation")(grids)._mat, Pm.tocsr()):
+                    return {"what": f"{which}_prolongation({s}) depends on which method was called first on the object", "key": f"sub-{which}-cache-order"}
             except KeyError:
                 if known and not bad:
                     return {"what": f"{which} projection raised KeyError for listed grids {s}", "key": f"sub-{which}-keyerror"}
@@ -755,7 +820,23 @@ def stats(cases, impl_outs):
         for o in out if isinstance(out, list) else []:
             if isinstance(o, dict) and "err" in o:
                 errs[o["err"]] = errs.get(o["err"], 0) + 1
-    return {"grid_kinds": kinds, "vector_dims": dims, "sel_permutations": n_perm, "sel_subsets": n_sub, "sel_empty": n_empty,
+    strata = {}
+    for c in cases:
+        g = c["grid"]
+        tags = [c.get("stratum")] if c.get("stratum") else []
+        if g["kind"] == "single" and all(x == 1 for x in g["n"]):
+            tags.append("one_cell_grid")
+        if (g["kind"] == "single" and max(g["n"]) >= 40) or (g["kind"] == "stub" and any(t[0] >= 60 for t in g["grids"])):
+            tags.append("large_scale")
+        if g["kind"] == "stub" and any(t[0] == 0 or (t[2] > 0 and t[1] == 0) for t in g["grids"]):
+            tags.append("zero_count_stub")
+        if any(_has_dup(s) for s in c["sels"]):
+            tags.append("repeated_grid_in_selection")
+        if c["all"] and c["all"] != sorted(c["all"]):
+            tags.append("unsorted_list")
+        for t in tags:
+            strata[t] = strata.get(t, 0) + 1
+    return {"strata": strata, "grid_kinds": kinds, "vector_dims": dims, "sel_permutations": n_perm, "sel_subsets": n_sub, "sel_empty": n_empty,
             "sel_with_unknown_grid": n_unknown, "duplicate_in_list": n_dup, "mixed_codim_interface_lists": n_mixed,
             "codim2_interface_lists": n_codim2, "non_matching_interface_cases": n_nonmatch, "errors_by_kind": errs,
             "listed_subdomains_hist": {str(k): sum(1 for c in cases if len(c["all"]) == k) for k in sorted({len(c["all"]) for c in cases})}}
